@@ -472,7 +472,8 @@ class _Feeder(InternalEvent):
         if not buf:
             return False
         cap = self.q.pipe_capacity
-        return cap is None or len(self.q.pipe) < cap
+        # capacity 0 = items larger than the pipe: a feeder thread simply waits for the reader, one item in flight
+        return cap is None or len(self.q.pipe) < max(1, cap)
 
     def fire(self):
         self.q.pipe.append(self.q.buffers[self.proc].pop(0))
@@ -494,6 +495,8 @@ class SimPipeQueue(_KernelObject):
         self.pipe = []
         self.delay = delay
         self.pipe_capacity = pipe_capacity
+        self.sync_put = False        # True for SimpleQueue: put() writes into the pipe itself
+        self._writer = None
         self._feeders = {}
         self.put_log = []
         self.get_log = []
@@ -526,6 +529,21 @@ class SimPipeQueue(_KernelObject):
             self._feeder_for(proc)
             self.buffers.setdefault(proc, []).append(data)
         else:
+            if self.sync_put and self.pipe_capacity is not None:
+                # SimpleQueue.put(): the caller itself writes into the pipe (under the write lock of the queue) and
+                # blocks while the pipe is full. Capacity 0 stands for an item LARGER than the pipe: the write ends
+                # only when a reader has taken the item.
+                if self._writer is not None or len(self.pipe) >= max(1, self.pipe_capacity):
+                    k.probe("synchronous-put-waited-for-pipe-room")
+                    k.block(lambda: self._writer is None and len(self.pipe) < max(1, self.pipe_capacity),
+                            (self.role, "put-pipe-full"))
+                self.pipe.append(data)
+                if self.pipe_capacity == 0:
+                    self._writer = k.current
+                    k.probe("synchronous-put-of-an-item-larger-than-the-pipe")
+                    k.block(lambda: not any(d is data for d in self.pipe), (self.role, "put-large-item"))
+                    self._writer = None
+                return
             self.pipe.append(data)
 
     def put_nowait(self, obj):
@@ -835,7 +853,8 @@ class SimContext:
 
     def SimpleQueue(self):
         # put() writes into the pipe synchronously (no feeder thread): no in-flight window
-        q = SimPipeQueue(self.k, 0, self._name("sq"), False, None)
+        q = SimPipeQueue(self.k, 0, self._name("sq"), False, self.pipe_capacity)
+        q.sync_put = True
         self.pipe_queues.append(q)
         return q
 
